@@ -273,3 +273,18 @@ func (h *HS) ErrString() string {
 	}
 	return fmt.Sprintf("client=%v server=%v echo=%v%s", h.ClientErr, h.ServerErr, h.EchoErr, extra)
 }
+
+// ChunkedRand is a source of real randomness that delivers at most n bytes per Read call
+// (legal for an io.Reader): code that forgets io.ReadFull gets short reads from it.
+type ChunkedRand struct{ N int }
+
+func (c ChunkedRand) Read(p []byte) (int, error) {
+	n := c.N
+	if n < 1 {
+		n = 1
+	}
+	if len(p) < n {
+		n = len(p)
+	}
+	return rand.Read(p[:n])
+}
